@@ -595,7 +595,7 @@ def gen_inter_case(seed: int, s: int, wid: int) -> dict:
             o = None if om == "none" else list(allnames)
             if om in ("perm", "perm-var"):
                 rng.shuffle(o)
-            tasks.append({"recipe": r2, "ordering": o, "ordering_as_variables": om == "perm-var"})
+            tasks.append({"recipe": r2, "ordering": o, "ordering_as_variables": om == "perm-var", "pres": present(rng, r2)})
         callers[f"c{ci}"] = tasks
     prng = random.Random(f"{seed}:C11i:{s}:w{wid}")
     pol = prng.choice(("uniform", "uniform", "pct", "hot"))
@@ -653,7 +653,7 @@ def run_inter_case(case: dict, explicit: bool = False) -> dict:
             pop = case["pop"]
             aborts = []
             arng = random.Random(f"{case['seed']}:C11i-abort:{case['scenario']}:{case['worker']}")
-            if arng.random() < 0.4:
+            if arng.random() < 0.6:
                 # an injected abort inside one task: that task has no result to compare; the others still must
                 # give theirs, whatever the interrupted computation left behind
                 c = arng.choice(sorted(callers))
@@ -703,6 +703,34 @@ def run_inter_case(case: dict, explicit: bool = False) -> dict:
         viol.append({"sig": f"C11/O6/concurrent-callers/{pred}", "oracle": "O6", "site": "concurrent-callers", "pred": pred,
                      "detail": {"caller": c, "task": k, "sequential": a, "interleaved": b}})
         break
+    # afterwards, at quiescence: the normal-form oracles once more on every task (same orderings), so that whatever
+    # a pre-empted or aborted computation left behind in the code under test shows up as a plain O1 / O2 violation
+    if not viol:
+        for c in sorted(callers):
+            for k, t in enumerate(callers[c]):
+                try:
+                    o = _ordering(t)
+                    c1 = canonicalize(build(t["recipe"]), o)
+                    if not (canonicalize(c1, o) == c1):
+                        viol.append({"sig": "C11/O1/idempotence-after-concurrent-callers/" + diff_class(c1, canonicalize(c1, o)),
+                                     "oracle": "O1", "site": "idempotence-after-concurrent-callers", "pred": "differs",
+                                     "detail": {"caller": c, "task": k, "first": str(c1)}})
+                        break
+                    if t.get("pres") is not None:
+                        c2 = canonicalize(build(t["pres"]), o)
+                        if not (c2 == c1):
+                            viol.append({"sig": "C11/O2/presentation-after-concurrent-callers/" + diff_class(c1, c2),
+                                         "oracle": "O2", "site": "presentation-after-concurrent-callers", "pred": "differs",
+                                         "detail": {"caller": c, "task": k, "original": str(c1), "presented": str(c2)}})
+                            break
+                except Exception as ex:  # noqa: BLE001
+                    if seq.get((c, k), ["?"])[0] == "ok":
+                        viol.append({"sig": f"C11/O6/after-concurrent-callers/raised:{type(ex).__name__}", "oracle": "O6",
+                                     "site": "after-concurrent-callers", "pred": f"raised:{type(ex).__name__}",
+                                     "detail": {"caller": c, "task": k, "msg": str(ex)[:200]}})
+                        break
+            if viol:
+                break
     e0 = build(callers[sorted(callers)[0]][0]["recipe"])
     io = [ser_var(x) for x in e0.get_variables()]
     return {"viol": viol, "xd": xd, "xv": xv, "io": digest(io), "stats": stats}
@@ -744,7 +772,7 @@ def minimise_inter(case: dict, sig: str, max_runs: int = 300) -> tuple[dict, dic
     for cn in sorted(cur["callers"]):
         for k in range(len(cur["callers"][cn])):
             c = copy.deepcopy(cur)
-            c["callers"][cn][k] = {"recipe": ["1"], "ordering": None, "ordering_as_variables": False}
+            c["callers"][cn][k] = {"recipe": ["1"], "ordering": None, "ordering_as_variables": False, "pres": None}
             if c["callers"][cn][k] != cur["callers"][cn][k] and fails(c):
                 cur = c
                 info["steps"].append(f"task-{cn}.{k}-trivial")
@@ -771,6 +799,7 @@ def minimise_inter(case: dict, sig: str, max_runs: int = 300) -> tuple[dict, dic
                     c = copy.deepcopy(cur)
                     t = c["callers"][cn][k]
                     t["recipe"] = cand
+                    t["pres"] = present(random.Random("shrink"), cand) if t.get("pres") is not None else None
                     if t.get("ordering") is not None:
                         nm = recipe_names(cand)
                         t["ordering"] = [n for n in t["ordering"] if n in nm] + sorted(nm - set(t["ordering"]))
